@@ -7,6 +7,7 @@
 // lines removed (chibicc.h has no include guard); nothing else is changed, so `static` functions are
 // reachable here.
 //
+// usage: literals_harness [scratch-file]   (the `file` operation writes its input there and runs tokenize_file() on it)
 // build: gcc -O1 -g -w -fsanitize=address,undefined -fno-sanitize-recover=all
 //            -I<snapshot> -I<scratch> literals_harness.c -o literals_harness
 #include "chibicc.h"
@@ -127,8 +128,11 @@ static Token *first_token(char *text) {
   return tokenize(f);
 }
 
-int main(void) {
+static char *tmp_path;
+
+int main(int argc, char **argv) {
   static char line[1 << 20];
+  tmp_path = argc > 1 ? argv[1] : NULL;
   while (fgets(line, sizeof line, stdin)) {
     char *op = strtok(line, " \n");
     if (!op) continue;
@@ -201,6 +205,28 @@ int main(void) {
       remove_backslash_newline(p);
       convert_universal_chars(p);
       printf("text "); print_bytes(p, strlen(p)); printf("\n");
+    } else if (!strcmp(op, "file") && arg) {
+      // the whole path of tokenize_file(): the bytes are written to a file (argv[1]) and read back by read_file(), then
+      // BOM skip, canonicalize_newline, remove_backslash_newline, convert_universal_chars, tokenize(); prints the text
+      // tokenize() was given and the first token
+      int len; char *p = parse_bytes(arg, &len);
+      if (!p || !tmp_path) { printf("bad-op\n"); continue; }
+      FILE *fp = fopen(tmp_path, "wb");
+      if (!fp) { printf("crash cannot write %s\n", tmp_path); _exit(0); }
+      fwrite(p, 1, len, fp);
+      fclose(fp);
+      arm();
+      if (setjmp(on_error)) { printf("file err %s\n", err_name()); continue; }
+      Token *tok = tokenize_file(tmp_path);
+      if (!tok) { printf("file err unreadable\n"); continue; }
+      printf("file "); print_bytes(tok->file->contents, strlen(tok->file->contents)); printf(" ");
+      if (tok->kind == TK_STR) { printf("str "); print_str(tok); printf(" %d\n", tok->len); }
+      else if (tok->kind == TK_NUM) printf("chr %lx %s %d\n", (unsigned long)tok->val, ty_name(tok->ty), tok->len);
+      else if (tok->kind == TK_PP_NUM) {
+        int n = tok->len;
+        if (convert_pp_int(tok)) printf("int %lx %s %d\n", (unsigned long)tok->val, ty_name(tok->ty), n);
+        else printf("flt %d\n", n);
+      } else printf("other\n");
     } else if (!strcmp(op, "join") && arg) {
       // adjacent literals separated by one space, then EOF
       char *text = calloc(1, 1 << 16); int n = 0; int bad = 0;
